@@ -64,6 +64,7 @@ def replay_with_confirmation(ctx, test, files, header, lines, tag):
     vlib.write_ndjson(vin, [header] + lines)
     rows, summ = go_replay(ctx, test, files, vin, vout)
     stats = {"configs": sum(s["configs"] for s in summ), "evals": sum(s["evals"] for s in summ),
+             "udp": sum(s.get("udp", 0) for s in summ),
              "flaky": sum(1 for r in rows if r.get("kind") == "flaky"),
              "skipped": sum(1 for r in rows if r.get("kind") == "skip"),
              "samples": [r for r in rows if r.get("kind") == "sample"][:3]}
@@ -143,3 +144,16 @@ def cfg_index_of_line(rows, line_no):
         if r["ev"] == "cfg":
             ci += 1
     return ci
+
+
+def replay_trace_record(ctx, test, files, rec, tag):
+    """Re-drive the configuration of a stored direction-B record with the seed
+    it was recorded under and let TLC judge the same request again."""
+    ctx.seed = int(rec["seed"])
+    rows, bad, _ = trace_validate(ctx, test, files, int(rec["n_cfg"]), tag, only=[int(rec["ci"])])
+    sig = lambda r: json.dumps([r["req"], r["ans"]], sort_keys=True)
+    hits = [rows[b - 1] for b in bad if sig(rows[b - 1]) == sig(rec)]
+    print(json.dumps({"request": rec["req"], "upstream_answer": rec["ans"], "lists": rec.get("lists"),
+                      "observed_again": [h["obs"] for h in hits] or "admissible",
+                      "concrete": [h.get("concrete") for h in hits]}, indent=1))
+    return 1 if hits else 0
